@@ -39,6 +39,11 @@ if rnd == 'r4':
              "turn a closure into a method (or back) so that it sees a stale or shared value; merge two helpers and apply one's step twice or not at all; hoist an allocation or a computation out of a loop/closure; "
              "rename a variable and reuse it so that the wrong one of two same-typed values is passed. The patch should read like a tidy refactoring commit in which the mistake is easy to overlook in review. "
              "Earlier rounds already covered the direct one-line variants of most mechanisms; a restructured variant of an old idea is fine as long as the break is real.")
+elif rnd == 'r5':
+    avoid = ("  IN THIS ROUND go where earlier rounds did not: they concentrated on the Go generator, the NATS/adapter transports and the best-known functions of each file. "
+             "Prefer the less-travelled code the property also covers — the Java, Dart and Python generators (including asyncio/tornado), the html and json targets, option-dependent paths (-r/recursive generation, use_vendor, go:slim, go:async, package prefixes, "
+             "topic delimiter and other generator options), the HTTP and STOMP transports, the simple server, the scope (pub/sub) client paths, error/exception paths rather than success paths, and interactions between two files or two functions that each look fine alone. "
+             "A restructuring commit in which one detail went wrong (helper extracted, guard moved, loop rewritten, condition inverted, two helpers merged) is the preferred disguise, as in real regressions.")
 elif rnd:
     avoid = "  Other people already produced the following ideas for this property - do NOT repeat them or close variants; find different mechanisms, functions or files: " + "; ".join(AVOID.get(pid, [])) + "."
 print(f"""You are helping to evaluate a verification tool for the open-source project Workiva/frugal (a Thrift-superset IDL compiler written in Go with Go/Java/Dart/Python generators, plus a Go runtime library under lib/go). Your job is to act as a "bug seeder": produce realistic source changes that BREAK one stated semantic property of the code base while still compiling and still passing the project's existing test suite.
